@@ -56,10 +56,15 @@ def _post(chk, cases, bad, extra):
     twins(chk, cases, bad, extra)
     import wide_explore
     wide_explore.explore_frozen(chk, extra)
+    import c07_chain
+    c07_chain.probe(chk, extra)
 
 
 def main(tier, replay=None):
     if replay:
+        if json.load(open(replay)).get("kind") == "frozen-chain":
+            import c07_chain
+            return c07_chain.replay(replay)
         return inst_check.replay("C07", replay, 64)
     return inst_check.run("C07", tier, 64, GENS, 350, 6000, ASSUMPTIONS, post=_post,
                           aimed=lambda rng, t: ig.element_cases(rng, 250 if t == "quick" else 4000, flavour="frozen",
